@@ -209,9 +209,9 @@ impl Check for FlowFunding {
         let mut closes_after_claim = 0;
         let fee = iw.fee_amount;
         // reward assets of this check: the world's two (a native denom and a cw20) and, third, the native
-        // fee denom "ufee" — so that flows in two different native denoms coexist and, when the creation
-        // fee is charged in "ufee", the contract holds fee-denom tokens that belong to a flow
-        let rewards: Vec<AssetInfo> = vec![iw.flow_assets[0].clone(), iw.flow_assets[1].clone(), crate::world::native("ufee")];
+        // fee denom "urewf" — so that flows in two different native denoms coexist and, when the creation
+        // fee is charged in "urewf", the contract holds fee-denom tokens that belong to a flow
+        let rewards: Vec<AssetInfo> = vec![iw.flow_assets[0].clone(), iw.flow_assets[1].clone(), crate::world::native("urewf")];
         for (step, op) in c.ops.iter().enumerate() {
             match op {
                 Op::OpenFlow { user, asset: ai, declared, funds, start, end, label } => {
